@@ -86,6 +86,8 @@ def str_method(eng, base, attr, node):
                 pass
         if attr == 'strip' and not args:
             return segstr.strip(eng_, base)
+        if attr == 'rstrip' and not args:
+            return segstr.strip(eng_, base, left=False)
         if attr == 'count' and args and isinstance(args[0], str):
             return segstr.count(eng_, base, args[0])
         if attr == 'startswith' and args and isinstance(args[0], str):
